@@ -1,217 +1,16 @@
 package main
 
 import (
-	"fmt"
-
+	"verif/internal/mut"
 	"verif/internal/prng"
 )
 
-// Grammar mutations shared by C01 (accepted class) and C11 (decoder).
-
-type jpath []interface{}
-
-func (p jpath) String() string {
-	s := ""
-	for _, e := range p {
-		switch x := e.(type) {
-		case string:
-			s += "/" + x
-		case int:
-			s += fmt.Sprintf("[%d]", x)
-		}
-	}
-	return s
-}
-
-// collectPaths lists every member / element position of a JSON value.
-func collectPaths(v interface{}, prefix jpath, out *[]jpath, depth int) {
-	if depth < 0 {
-		return
-	}
-	switch x := v.(type) {
-	case map[string]interface{}:
-		keys := sortedMapKeys(x)
-		for _, k := range keys {
-			p := append(append(jpath{}, prefix...), k)
-			*out = append(*out, p)
-			collectPaths(x[k], p, out, depth-1)
-		}
-	case []interface{}:
-		for i := range x {
-			p := append(append(jpath{}, prefix...), i)
-			*out = append(*out, p)
-			collectPaths(x[i], p, out, depth-1)
-		}
-	}
-}
-
-func sortedMapKeys(m map[string]interface{}) []string {
-	keys := make([]string, 0, len(m))
-	for k := range m {
-		keys = append(keys, k)
-	}
-	// insertion sort to avoid importing sort twice
-	for i := 1; i < len(keys); i++ {
-		for j := i; j > 0 && keys[j] < keys[j-1]; j-- {
-			keys[j], keys[j-1] = keys[j-1], keys[j]
-		}
-	}
-	return keys
-}
-
-// getAt navigates to a path.
-func getAt(root interface{}, p jpath) (interface{}, bool) {
-	cur := root
-	for _, e := range p {
-		switch k := e.(type) {
-		case string:
-			m, ok := cur.(map[string]interface{})
-			if !ok {
-				return nil, false
-			}
-			cur, ok = m[k]
-			if !ok {
-				return nil, false
-			}
-		case int:
-			a, ok := cur.([]interface{})
-			if !ok || k >= len(a) {
-				return nil, false
-			}
-			cur = a[k]
-		}
-	}
-	return cur, true
-}
-
-// setAt replaces (or removes) the value at a path inside root, in place.
-func setAt(root interface{}, p jpath, val interface{}, remove bool) {
-	if len(p) == 0 {
-		return
-	}
-	parent, ok := getAt(root, p[:len(p)-1])
-	if !ok {
-		return
-	}
-	switch k := p[len(p)-1].(type) {
-	case string:
-		if m, ok := parent.(map[string]interface{}); ok {
-			if remove {
-				delete(m, k)
-			} else {
-				m[k] = val
-			}
-		}
-	case int:
-		if a, ok := parent.([]interface{}); ok && k < len(a) {
-			if remove {
-				// removal inside an array: replace by null (arrays are values of the parent key)
-				a[k] = nil
-			} else {
-				a[k] = val
-			}
-		}
-	}
-}
-
-// mutOps is the operator alphabet: each returns the replacement for the
-// current value (remove=true deletes the member).
-type mutOp struct {
-	Name string
-	Fn   func(cur interface{}, g *prng.R) (val interface{}, remove bool)
-}
-
-func mutOperators() []mutOp {
-	return []mutOp{
-		{"remove", func(cur interface{}, g *prng.R) (interface{}, bool) { return nil, true }},
-		{"null", func(cur interface{}, g *prng.R) (interface{}, bool) { return nil, false }},
-		{"empty-string", func(cur interface{}, g *prng.R) (interface{}, bool) { return "", false }},
-		{"empty-array", func(cur interface{}, g *prng.R) (interface{}, bool) { return []interface{}{}, false }},
-		{"empty-object", func(cur interface{}, g *prng.R) (interface{}, bool) { return map[string]interface{}{}, false }},
-		{"number", func(cur interface{}, g *prng.R) (interface{}, bool) { return float64(g.Intn(100)) - 3.5, false }},
-		{"bool", func(cur interface{}, g *prng.R) (interface{}, bool) { return g.Bool(), false }},
-		{"array-of-arrays", func(cur interface{}, g *prng.R) (interface{}, bool) {
-			return []interface{}{[]interface{}{cur}, []interface{}{}}, false
-		}},
-		{"object-without-id", func(cur interface{}, g *prng.R) (interface{}, bool) {
-			return map[string]interface{}{"type": g.Str("Note", "Person", "Collection", "Link", "Follow", "Nope")}, false
-		}},
-		{"wrong-kind-literal", func(cur interface{}, g *prng.R) (interface{}, bool) {
-			return g.Str("not a date", "P", "-", "PT", "-P", "P1S", "2020-13-45T99:99:99Z", "http://[::1", "1e400", "tag:", ":", "%zz", "P99999999999999999999Y", "T", "-PT-5S"), false
-		}},
-		{"one-element-list", func(cur interface{}, g *prng.R) (interface{}, bool) { return []interface{}{cur}, false }},
-		{"list-with-null", func(cur interface{}, g *prng.R) (interface{}, bool) { return []interface{}{cur, nil, cur}, false }},
-		{"relative-iri", func(cur interface{}, g *prng.R) (interface{}, bool) { return g.Str("/relative/path", "../x", "?q", "#frag", "//host/p"), false }},
-		{"lang-map", func(cur interface{}, g *prng.R) (interface{}, bool) {
-			return map[string]interface{}{"en": "x", "fr": g.Str("y", "")}, false
-		}},
-		{"lang-map-bad", func(cur interface{}, g *prng.R) (interface{}, bool) {
-			return map[string]interface{}{"en": float64(1), "fr": nil}, false
-		}},
-		{"huge-number", func(cur interface{}, g *prng.R) (interface{}, bool) { return 1e300, false }},
-		{"negative", func(cur interface{}, g *prng.R) (interface{}, bool) { return float64(-1), false }},
-		{"nested-context", func(cur interface{}, g *prng.R) (interface{}, bool) {
-			if m, ok := cur.(map[string]interface{}); ok {
-				c := deepCopy(m).(map[string]interface{})
-				c["@context"] = "https://www.w3.org/ns/activitystreams"
-				return c, false
-			}
-			return map[string]interface{}{"@context": "https://www.w3.org/ns/activitystreams", "type": "Note"}, false
-		}},
-		{"duplicate-into-list", func(cur interface{}, g *prng.R) (interface{}, bool) { return []interface{}{cur, cur}, false }},
-	}
-}
-
-// mutateDoc emits n mutated deep copies of doc.
 func mutateDoc(doc map[string]interface{}, g *prng.R, n int, emit func(map[string]interface{}, string)) {
-	var ps []jpath
-	collectPaths(doc, nil, &ps, 4)
-	ops := mutOperators()
-	for i := 0; i < n && len(ps) > 0; i++ {
-		p := ps[g.Intn(len(ps))]
-		if len(p) == 1 && p[0] == "@context" && g.Chance(3, 4) {
-			continue
-		}
-		op := ops[g.Intn(len(ops))]
-		c := deepCopy(doc).(map[string]interface{})
-		cur, _ := getAt(c, p)
-		val, rm := op.Fn(cur, g)
-		setAt(c, p, val, rm)
-		emit(c, op.Name+"@"+p.String())
-	}
-	// whole-document mutations
-	if nm, ok := doc["name"]; ok {
-		c := deepCopy(doc).(map[string]interface{})
-		c["nameMap"] = map[string]interface{}{"en": "both spellings"}
-		_ = nm
-		emit(c, "both-name-and-nameMap")
-	}
-	{
-		c := deepCopy(doc).(map[string]interface{})
-		switch ctx := c["@context"].(type) {
-		case string:
-			c["@context"] = []interface{}{ctx, map[string]interface{}{"ext": "https://ext.example/ns#"}}
-		case []interface{}:
-			c["@context"] = append(ctx, map[string]interface{}{"ext": "https://ext.example/ns#"})
-		}
-		c["ext:thing"] = "value"
-		emit(c, "extension-alias-context")
-	}
+	mut.MutateDoc(doc, g, n, emit)
 }
 
-// allMutations enumerates every (path, operator) pair of a document.
 func allMutations(doc map[string]interface{}, depth int, g *prng.R, emit func(map[string]interface{}, string)) {
-	var ps []jpath
-	collectPaths(doc, nil, &ps, depth)
-	for _, p := range ps {
-		for _, op := range mutOperators() {
-			c := deepCopy(doc).(map[string]interface{})
-			cur, _ := getAt(c, p)
-			val, rm := op.Fn(cur, g)
-			setAt(c, p, val, rm)
-			emit(c, op.Name+"@"+p.String())
-		}
-	}
+	mut.AllMutations(doc, depth, g, emit)
 }
 
 // vocabExamples returns every example embedded in the vocabulary files, given
